@@ -16,7 +16,6 @@ L3: judged on the real objects, independent of the model: once the script has te
     spawned through a Thread double) against a link thread that delivers CONNECT / I PDUs through the real
     dispatch()/collect() and then ends the link by every cause of the real run loops.
 """
-import errno
 import itertools
 import os
 
@@ -296,7 +295,7 @@ def _reachable(st):
 def tie_multi(ck, model):
     from sims import term_sched as S
     bound = 2 if ck.thorough else 1
-    per_cfg = 16 if ck.thorough else 8
+    per_cfg = 10 if ck.thorough else 8
     lines, reals, infos = [], [], []
     nexec = 0
     seen_keys = set()
@@ -578,7 +577,7 @@ def svc_walk(model_steps, start, calls):
 def tie_service_threads(ck, model):
     from sims import term_sched as S
     bound = 2 if ck.thorough else 1
-    per = 40 if ck.thorough else 6
+    per = 20 if ck.thorough else 6
     pts = ["accept", "poll", "recv", "send", "close", "exited"]
     rs = ["value1", "value0", "llcp", "other"]
     model_steps = {}
@@ -620,7 +619,6 @@ def tie_service_threads(ck, model):
                 decisions = list(ex.sched.decisions)
                 llc = ex.llc
                 open_saps = [i for i, x in enumerate(llc.sap) if x is not None]
-                link_res = ex.link.result
                 fired = ex.script.fired
             finally:
                 ex.close()
